@@ -115,6 +115,14 @@ def run(ctx):
         failures.append(("translator", {"translation_unit": [l for l in out.split("\n") if "FAILED" in l or "SKIPPED" in l],
                                         "message": out[-1500:]}))
 
+    # ---- 1b. the splitter constructors (generated unit split_ctor + its differential sweep); its theorems are in the
+    #          companion file Properties_C25_Gen.v, built with the other obligations in step 2
+    try:
+        import C25_init
+        cov["constructors"] = C25_init.run_init(ctx, build_coq=False)
+    except vcheck.BuildError as e:
+        failures.append(("translator", {"message": "constructor sweep could not be built: " + str(e)[-1200:]}))
+
     # ---- 2. proof obligations ------------------------------------------------------------------
     res = vcheck.coq_build(["Properties/Properties_C25.v"], timeout=1700)
     ctx.coq_evidence(res)
